@@ -45,5 +45,7 @@ func (f *EchoStreamOutputStream) Call(s *slip.Scope, args slip.List, depth int) 
 	if !ok {
 		slip.TypePanic(s, depth, "echo-stream", args[0], "echo-stream")
 	}
-	return es.output.(slip.Object)
+	obj, _ := es.output.(slip.Object) // nil once the stream is closed
+
+	return obj
 }
